@@ -146,6 +146,7 @@ CHECK_DEADLOCK FALSE
 	c.Set("trace_events", events)
 	c13Clones(c)
 	c13HandBuilt(c)
+	c13Package(c)
 	c.Set("rule", "case = one traversal (Walk or Inspect) of one file under one pruning rule; non-trivial = the rule prunes at least one node that has children, or it is the full traversal compared with go/ast; distinct by file+rule")
 }
 
